@@ -346,12 +346,15 @@ func ReadJSON(path string, v any) {
 // Local is a per-worker violation collector (no locking, lazy rendering): only
 // the first (smallest-order) example of each key is rendered.
 type Local struct {
-	m map[string]*Viol
+	mu sync.Mutex
+	m  map[string]*Viol
 }
 
 func NewLocal() *Local { return &Local{m: map[string]*Viol{}} }
 
 func (l *Local) Add(key string, order int64, render func() (what string, replay any)) {
+	l.mu.Lock()
+	defer l.mu.Unlock()
 	if v, ok := l.m[key]; ok {
 		v.Count++
 		if order < v.Order {
@@ -365,6 +368,8 @@ func (l *Local) Add(key string, order int64, render func() (what string, replay 
 }
 
 func (r *Run) MergeLocal(l *Local) {
+	l.mu.Lock()
+	defer l.mu.Unlock()
 	for _, v := range l.m {
 		r.Merge(v)
 	}
